@@ -100,6 +100,83 @@ for r_ in range(len(all_edges) + 1):
                            [k != w_.v for k in map_keys(r.st, 'priorities')] + [k != w_.v for k in map_keys(r.st, 'edges')] + [k != w_.v for k in map_keys(r.st, 'reverse_edges')]
                     ck.require(ex, 'K8_removed_tx_gone', r.pc, None, z3.And(gone) if gone else z3.BoolVal(True), wit, lambda m, w: 'graph-remnant')
 
+# cycle detection on every wait-for graph over GN distinct symbolic transactions
+ck.declare('K9_cycle_reported_iff_present', f'detect_cycles() on every edge subset over {GN} distinct symbolic transactions (hash iteration: insertion order in quick, every order in thorough)',
+           'a cycle is reported exactly when the recorded edges contain one; every reported cycle is a closed walk along recorded edges')
+ck.declare('K10_would_create_cycle_exact', 'would_create_cycle(w, h) with w, h arbitrary (inside or outside the graph)',
+           'true exactly when w == h or the recorded edges already lead from h to w')
+
+
+def has_cycle(es, n):
+    adj = {i: [b for a, b in es if a == i] for i in range(n)}
+    color = {}
+
+    def dfs(u):
+        color[u] = 1
+        for v in adj[u]:
+            if color.get(v) == 1 or (v not in color and dfs(v)):
+                return True
+        color[u] = 2
+        return False
+    return any(u not in color and dfs(u) for u in range(n))
+
+
+def reach(es, n):
+    """R[a][b]: a path of >= 0 edges from a to b"""
+    R = [[a == b for b in range(n)] for a in range(n)]
+    for a, b in es:
+        R[a][b] = True
+    for k in range(n):
+        for i in range(n):
+            for j in range(n):
+                R[i][j] = R[i][j] or (R[i][k] and R[k][j])
+    return R
+
+
+for r_ in range(len(all_edges) + 1):
+    for es in itertools.combinations(all_edges, r_):
+        nodes = [z3.BitVec(f'n{i}', 64) for i in range(GN)]
+        st = ex.new_state()
+        for a, b in itertools.combinations(nodes, 2):
+            st.assume(a != b)
+        mk_graph(st, es, nodes)
+        res = run(st, 'WaitForGraph::detect_cycles', [ref(st.roots['g'])])
+        ck.note_path_problem(res, f'detect_cycles edges={es}')
+        want = has_cycle(es, GN)
+        pre_edges = [(nodes[a], nodes[b]) for a, b in es]
+        for r in res:
+            wit = lambda m, es=es, nodes=nodes: {'graph_op': 'detect_cycles', 'nodes': [mval(m, n) for n in nodes], 'edges': [list(e) for e in es], 'w': 0, 'h': 0}
+            if r.status == 'panic':
+                ck.require(ex, 'K9_cycle_reported_iff_present', r.pc, None, z3.BoolVal(False), wit, lambda m, w: 'graph-panic')
+                continue
+            if r.status != 'return':
+                continue
+            cyc = [c.items(r.st) for c in r.retval.items(r.st)]
+            cs = [z3.BoolVal((len(cyc) > 0) == want)]
+            for c in cyc:
+                cs.append(z3.BoolVal(len(c) > 0))
+                for i in range(len(c)):
+                    cs.append(has(pre_edges, c[i].v, c[(i + 1) % len(c)].v))
+            ck.require(ex, 'K9_cycle_reported_iff_present', r.pc, None, z3.And(cs), wit, lambda m, w: 'cycle-detection')
+        # would_create_cycle
+        st = ex.new_state()
+        for a, b in itertools.combinations(nodes, 2):
+            st.assume(a != b)
+        mk_graph(st, es, nodes)
+        w_, h_ = Int(z3.BitVec('aw', 64), False), Int(z3.BitVec('ah', 64), False)
+        res = run(st, 'WaitForGraph::would_create_cycle', [ref(st.roots['g']), w_, h_])
+        ck.note_path_problem(res, f'would_create_cycle edges={es}')
+        R = reach(es, GN)
+        truth = z3.Or([w_.v == h_.v] + [z3.And(h_.v == nodes[a], w_.v == nodes[b]) for a in range(GN) for b in range(GN) if a != b and R[a][b]])
+        for r in res:
+            wit = lambda m, es=es, nodes=nodes: {'graph_op': 'would_create_cycle', 'nodes': [mval(m, n) for n in nodes], 'edges': [list(e) for e in es], 'w': mval(m, w_.v), 'h': mval(m, h_.v)}
+            if r.status == 'panic':
+                ck.require(ex, 'K10_would_create_cycle_exact', r.pc, None, z3.BoolVal(False), wit, lambda m, w: 'graph-panic')
+                continue
+            if r.status != 'return':
+                continue
+            ck.require(ex, 'K10_would_create_cycle_exact', r.pc, None, r.retval == truth, wit, lambda m, w: 'would-create-cycle')
+
 # victim choice: select_victim(c) is a member of c, for every policy and arbitrary wait-start / priority entries
 ck.declare('K5_victim_in_cycle', 'cycles of 1..3 symbolic transaction ids, every policy, 0..2 wait-start and priority entries', 'select_victim(c) is one of the members of c')
 POL = P.variants('VictimSelectionPolicy')
@@ -118,4 +195,5 @@ for n in range(1, 4):
         if r.status != 'return':
             continue
         ck.require(ex, 'K5_victim_in_cycle', r.pc, None, z3.Or([r.retval.v == c.v for c in cyc]), wit, lambda m, w: 'victim-outside-cycle')
-ck.functions += ['WaitForGraph::add_wait', 'WaitForGraph::remove_wait', 'WaitForGraph::remove_transaction', 'DeadlockDetector::select_victim']
+ck.functions += ['WaitForGraph::add_wait', 'WaitForGraph::remove_wait', 'WaitForGraph::remove_transaction', 'WaitForGraph::detect_cycles', 'deadlock::dfs_detect',
+                 'WaitForGraph::would_create_cycle', 'DeadlockDetector::select_victim']
